@@ -17,9 +17,9 @@ THOROUGH = a.tier == "thorough"
 part_k, part_n = [int(x) for x in a.part.split("/")]
 I = imath
 MODE = os.environ.get("C20_MODES", "seq,thr,thrd")       # which pool modes to run (tsan runs use thr,thrd only)
-LENGTHS = [1, 199, 200, 201, 202, 1000, 4096] if THOROUGH else [3, 200, 201, 333]
-NSEQ = 24 if THOROUGH else 6        # partitions per (entry, length) in seq mode
-NTHR = 8 if THOROUGH else 3
+LENGTHS = [1, 199, 200, 201, 202, 1000, 4096] if THOROUGH else [3, 201, 333]
+NSEQ = 24 if THOROUGH else 5        # partitions per (entry, length) in seq mode
+NTHR = 8 if THOROUGH else 2
 NTHRD = 4 if THOROUGH else 1
 WORKERS = 4
 
@@ -76,6 +76,8 @@ def scalar(t, r, ctx=None):
     shift = ctx == "shift"
     if t == "float":
         return rfloat(r, special=False) if not shift else float(r.range(0, 7))
+    if ctx == "nospecial" and re.match(r"^V\d[fd]$", t):
+        return getattr(I, t)(*[rfloat(r, False) for _ in range(int(t[1]))])
     if t == "int":
         return rint(r, 0, 7) if shift else rint(r)
     if t == "bool":
@@ -95,8 +97,10 @@ def scalar(t, r, ctx=None):
         vals = [r.uniform(-2, 2) for _ in range(n * n)]
         for d in range(n):
             vals[d * n + d] += 4.0      # comfortably invertible
-        if n == 4 and r.coin():          # affine
+        if n == 4 and (r.coin() or ctx == "affine"):          # affine
             vals[3], vals[7], vals[11], vals[15] = 0.0, 0.0, 0.0, 1.0
+        if n == 3 and ctx == "affine":
+            vals[2], vals[5], vals[8] = 0.0, 0.0, 1.0
         return getattr(I, t)(*vals)
     m = re.match(r"^Quat(f|d)$", t)
     if m:
@@ -177,7 +181,7 @@ def make_value(t, n, r, kind="plain", ctx=None):
                 if t == "IntArray2D":
                     arr[i, j] = r.range(0, 7) if ctx == "shift" else r.range(1, 50)
                 elif t in ("FloatArray2D", "DoubleArray2D"):
-                    arr[i, j] = rfloat(r)
+                    arr[i, j] = rfloat(r, special=(ctx != "nospecial"))
                 elif t == "Color4fArray2D":
                     arr[i, j] = scalar("Color4f", r)
                 else:
@@ -290,12 +294,21 @@ def f32(x):
 
 
 def copy_elem(e):
+    """an independent copy of a scalar-class object (elements read from writable arrays are references into them)"""
     if isinstance(e, (bool, int, float, str)) or e is None:
         return e
+    import copy as _copy
     try:
         return type(e)(e)
     except Exception:
-        return e
+        pass
+    try:
+        return _copy.copy(e)      # V2s, V3i64, ... have no copy constructor in the bindings but define __copy__
+    except Exception:
+        pass
+    if type(e).__name__.startswith("Box"):
+        return type(e)(copy_elem(e.min()), copy_elem(e.max()))
+    raise TypeError("cannot copy " + type(e).__name__)
 
 
 def scalar_counterpart(owner_name, owner, name, f, args, argtypes, i):
@@ -316,6 +329,8 @@ def scalar_counterpart(owner_name, owner, name, f, args, argtypes, i):
             et = elem_type(t0)
             if et in ("int", "float", "bool"):
                 if name in ("__div__", "__truediv__", "__idiv__", "__itruediv__"):
+                    if t0 == "FloatArray":
+                        ai = [f32(x) if isinstance(x, float) else x for x in ai]
                     x, y = ai[0], ai[1]
                     if et == "int":
                         res = c_div(x, y)
@@ -325,15 +340,17 @@ def scalar_counterpart(owner_name, owner, name, f, args, argtypes, i):
                     x, y = ai[0], ai[1]
                     res = x - c_div(x, y) * y
                 elif name in PYOPS:
+                    if t0 == "FloatArray":
+                        ai = [f32(x) if isinstance(x, float) else x for x in ai]
                     res = PYOPS[name](*ai)
                 else:
                     return False, "no scalar counterpart for numeric array method", None
                 if et == "float" and isinstance(res, float) and t0 == "FloatArray":
                     res = f32(res)
-                res = wrapi(res, t0) if not name.startswith(("__eq", "__ne", "__lt", "__le", "__gt", "__ge")) else res
+                res = wrapi(res, t0) if name not in ("__eq__", "__ne__", "__lt__", "__le__", "__gt__", "__ge__") else res
                 return True, res, res if name.startswith("__i") else ai[0]
             ecls = getattr(I, et)
-            sf = getattr(ecls, name, None)
+            sf = getattr(ecls, SCALAR_ALIAS.get((et[:4], name), name), None)
             if sf is None:
                 return False, "element class has no such method", None
             return True, sf(*ai), ai[0]
@@ -346,7 +363,11 @@ def scalar_counterpart(owner_name, owner, name, f, args, argtypes, i):
         return False, "scalar call raised %s" % type(e).__name__, None
 
 
-def close_enough(x, y, ulps=4):
+# array methods whose documented scalar counterpart has another name
+SCALAR_ALIAS = {("Quat", "slerp"): "slerpShortestArc"}     # QuatArray.slerp: "shortest arc spherical linear interpolation"
+
+
+def close_enough(x, y, ulps=4, extra_scale=0.0, eps=1.2e-7):
     """x, y canonical (nested tuples of numbers): equal up to `ulps` units in the last place of the larger magnitude in the tuple"""
     fx, fy = [], []
 
@@ -360,14 +381,14 @@ def close_enough(x, y, ulps=4):
     flat(y, fy)
     if len(fx) != len(fy):
         return False
-    scale = max([abs(v) for v in fx + fy if isinstance(v, float) and v == v and abs(v) != float("inf")] + [0.0])
+    scale = max([abs(v) for v in fx + fy if isinstance(v, float) and v == v and abs(v) != float("inf")] + [extra_scale])
     for p, q in zip(fx, fy):
         if isinstance(p, float) and isinstance(q, float):
             if p != p and q != q:
                 continue
             if p == q:
                 continue
-            if abs(p - q) <= ulps * 1.2e-7 * max(scale, 1e-30):
+            if abs(p - q) <= ulps * eps * max(scale, 1e-30):
                 continue
             return False
         elif p != q:
@@ -375,17 +396,75 @@ def close_enough(x, y, ulps=4):
     return True
 
 
+def illconditioned(name, fresh, argtypes, i, want, diff):
+    ai = [(v[i] if is_a1(t) else v) for v, t in zip(fresh, argtypes)]
+    worst = 0.0
+    for j, x in enumerate(ai):
+        if not isinstance(x, float) or x != x or abs(x) == float("inf"):
+            continue
+        for fac in (1 + 1.2e-7, 1 - 1.2e-7):
+            b = list(ai)
+            b[j] = x * fac if x != 0 else 1e-38
+            try:
+                w2 = getattr(I, name)(*b)
+            except Exception:
+                return True
+            if isinstance(w2, float):
+                if w2 != w2 or abs(w2) == float("inf"):
+                    return True
+                worst = max(worst, abs(w2 - want))
+    return worst * 2 >= diff
+
+
 # ---------------------------------------------------------------- running one entry point
 KINDS = ["plain", "masked"]
 
 
+class Proto:
+    """a generated argument that can be re-materialised cheaply (deep copies made by the C++ slice code)"""
+
+    def __init__(self, t, n, r, kind, ctx):
+        self.t, self.kind = t, kind
+        if is_a1(t) and kind == "masked":
+            extra = 7
+            self.base = make_a1(t, n + extra, r, ctx)
+            mv = [1] * n + [0] * extra
+            r.shuffle(mv)
+            self.mask = int_array(mv)
+        else:
+            self.base = make_value(t, n, r, "plain", ctx)
+
+    def fresh(self):
+        t = self.t
+        if is_a1(t):
+            c = self.base[:]
+            return c[self.mask] if self.kind == "masked" else c
+        if is_a2(t):
+            return self.base[:, :]
+        if is_mat(t):
+            return self.base[:]
+        return copy_elem(self.base)
+
+
+_proto_cache = {}
+
+
 def build_args(seed_key, argtypes, n, kinds, ctx, longer=None):
-    r = Rng(a.seed, seed_key, n)
-    vals = []
-    for j, t in enumerate(argtypes):
-        nn = n + 1 if longer == j else n
-        vals.append(make_value(t, nn, r, kinds[j] if is_a1(t) else "plain", ctx))
-    return vals
+    ck = (seed_key, tuple(argtypes), n, tuple(kinds), ctx, longer)
+    protos = _proto_cache.get(ck)
+    if protos is None:
+        if len(_proto_cache) > 64:
+            _proto_cache.clear()
+        r = Rng(a.seed, seed_key, n)
+        protos = []
+        for j, t in enumerate(argtypes):
+            nn = n + 1 if longer == j else n
+            if t == "object":
+                protos.append(None)
+            else:
+                protos.append(Proto(t, nn, r, kinds[j] if is_a1(t) else "plain", ctx))
+        _proto_cache[ck] = protos
+    return [p.fresh() if p is not None else None for p in protos]
 
 
 def call(f, owner_name, name, vals):
@@ -396,7 +475,17 @@ def call(f, owner_name, name, vals):
 
 def run_entry(owner_name, owner, name, f, argtypes, ret):
     sigtxt = "%s.%s(%s)" % (owner_name, name, ",".join(argtypes))
+    if os.environ.get("C20_TRACE"):
+        sys.stderr.write("entry %s\n" % sigtxt)
+        sys.stderr.flush()
     ctx = "shift" if "shift" in name else None
+    int_types = ("IntArray", "ShortArray", "UnsignedShortArray", "SignedCharArray", "UnsignedCharArray", "UnsignedIntArray", "BoolArray", "IntArray2D", "IntMatrix", "int")
+    floaty = lambda t: t in ("FloatArray", "DoubleArray", "float", "FloatArray2D", "DoubleArray2D", "FloatMatrix", "DoubleMatrix") or re.match(r"^V\d[fd](Array)?$", t)
+    if any(floaty(t) for t in argtypes) and (ret in int_types or re.match(r"^V\d(s|i|i64)(Array)?$", ret) or
+                                             (name == "__init__" and (owner_name in int_types or re.match(r"^V\d(s|i|i64)Array$", owner_name)))):
+        ctx = "nospecial"    # float -> int conversions (floor, ceil, trunc, IntArray(FloatArray)...) are undefined for inf/NaN/huge values
+    if re.match(r"^V\d(s|i|i64)(Array)?$", owner_name) and any(re.match(r"^M\d\d[fd](Array)?$", t) for t in argtypes):
+        ctx = "affine"       # integer vector x projective matrix divides by an integer w that may be 0: undefined for the scalar op too
     if name == "__init__":
         argtypes = ["object"] + argtypes[1:]
     a1pos = [j for j, t in enumerate(argtypes) if is_a1(t)]
@@ -454,6 +543,8 @@ def run_entry(owner_name, owner, name, f, argtypes, ret):
                 idxs = sorted(set(list(range(min(n_elems, 24))) + list(range(max(0, n_elems - 8), n_elems)) + [Rng(a.seed, key, 77).below(n_elems) for _ in range(8)]))
                 fresh = build_args(key, argtypes, n, kinds, ctx)
                 res_is_arr = res is not None and type(res).__name__.endswith("Array") and hasattr(res, "__len__") and len(res) == n_elems
+                is32 = any(t in ("FloatArray", "FloatArray2D", "FloatMatrix") or re.match(r"^(V\d|C\d|Color\d|M\d\d|Quat|Euler|Box\d)f(Array|Array2D)?$", t) for t in argtypes + [ret])
+                eps = 1.2e-7 if is32 else 2.3e-16
                 for i in idxs:
                     ok, sres, spost = scalar_counterpart(owner_name, owner, name, f, fresh, argtypes, i)
                     if not ok:
@@ -477,11 +568,56 @@ def run_entry(owner_name, owner, name, f, argtypes, ret):
                         want = int(want)
                     if deep(got) != deep(want):
                         intlike = not any(isinstance(x, float) for x in (got if isinstance(got, tuple) else (got,)))
-                        if not intlike and close_enough(got, want):
-                            R.cls("o2_within_few_ulps")
+                        inscale = 0.0
+                        for v, t in zip(fresh, argtypes):
+                            try:
+                                c = canon(v[i]) if is_a1(t) else canon(v)
+                            except Exception:
+                                continue
+                            stack = [c]
+                            while stack:
+                                q = stack.pop()
+                                if isinstance(q, tuple):
+                                    stack.extend(q)
+                                elif isinstance(q, float) and q == q and abs(q) != float("inf"):
+                                    inscale = max(inscale, abs(q))
+                        if not intlike and close_enough(got, want, ulps=64, extra_scale=inscale, eps=eps):
+                            R.cls("o2_within_tolerance")
+                        elif owner is I and is32 and isinstance(got, float) and isinstance(want, float) and illconditioned(name, fresh, argtypes, i, want, abs(got - want)):
+                            # imath.f(python floats) resolves to the double overload; a float array result may differ from it by
+                            # (condition number) x float eps.  Judged only where one float ulp on an input moves the answer less than that.
+                            R.cls("o2_illconditioned_skipped")
                         else:
                             R.fail("elementwise:%s.%s:differs_from_scalar_binding" % (owner_name, name), sig=sigtxt, kinds=kk, n=n, i=i, got=got, want=want)
                             break
+                # ---- O2b: the same entry point on one-element arrays built from the i-th elements gives the i-th result exactly
+                for i in idxs[:3] + idxs[-3:]:
+                    try:
+                        one = []
+                        for v, t in zip(fresh, argtypes):
+                            one.append(getattr(I, t)(copy_elem(v[i]), 1) if is_a1(t) else copy_elem(v))
+                    except Exception:
+                        R.cls("o2b_not_applicable")
+                        break
+                    try:
+                        r1 = call(f, owner_name, name, one)
+                    except Exception as e:
+                        R.fail("elementwise:%s.%s:one_element_call_raised" % (owner_name, name), sig=sigtxt, kinds=kk, n=n, i=i, exc=repr(e))
+                        break
+                    R.ev()
+                    R.cls("o2b_one_element_calls")
+                    try:
+                        if res_is_arr:
+                            got, want = deep(canon(res[i])), deep(canon(r1[0]))
+                        elif mutated and is_a1(argtypes[0]):
+                            got, want = deep(canon(vals[0][i])), deep(canon(one[0][0]))
+                        else:
+                            break
+                    except TypeError:
+                        break
+                    if got != want:
+                        R.fail("elementwise:%s.%s:depends_on_position_or_length" % (owner_name, name), sig=sigtxt, kinds=kk, n=n, i=i, got=repr(got)[:200], want=repr(want)[:200])
+                        break
             # ---- O3: one array argument too long
             if len(a1pos) >= 2 and n == LENGTHS[0] and kk == "p" * len(a1pos) and name != "__init__":
                 for j in a1pos[1:]:
